@@ -88,6 +88,9 @@ M = [
  ("g-derive-ex-attrs-negated", ["C15:DM-arg-merge"], IT, "        if attr.path() == &parse_quote!(derive_ex) {", "        if attr.path() != &parse_quote!(derive_ex) {"),
  ("g-param-flag-set-false", ["C03:DM-mentions-param"], SU, "                            self.result = true;", "                            self.result = false;"),
  ("g-dotdot-sets-false", ["C04:DM-bound-parse"], BO, "Bound::Default(_) => self.default = true,", "Bound::Default(_) => self.default = false,"),
+ ("g-to-rhs-second-arg", ["C09:DM-to_rhs", "C16:ES-no-panic-path"], II, "            if let GenericArgument::Type(ty) = &args.args[0] {", "            if let GenericArgument::Type(ty) = &args.args[1] {"),
+ ("g-param-last-segment", ["C03:DM-mentions-param"], SU, "                    if let Some(s) = i.segments.iter().next() {", "                    if let Some(s) = i.segments.iter().last() {"),
+ ("g-visitor-starts-true", ["C03:DM-mentions-param"], SU, "            generics: self,\n            result: false,", "            generics: self,\n            result: true,"),
  # benign variants: every listed property must stay silent
  ("benign-rename-local", [], IT, "let use_bounds = e.push_bounds_to(&mut wcb);\n    let mut ctor_args = Vec::new();\n    let mut clone_from_exprs = Vec::new();", "let use_bounds = e.push_bounds_to(&mut wcb);\n    let mut ctor_args = Vec::new();\n    let mut clone_from_exprs = Vec::new();\n    let _unused_marker = 0;"),
 ]
